@@ -70,7 +70,7 @@ func applyMutation(a *anypb.Any, m mutation) {
 	}
 }
 
-func decodeReal(kind string, anys []*anypb.Any) (decoded interface{}, isErr bool, panicked string) {
+func decodeReal(kind string, anys []*anypb.Any, id int) (decoded interface{}, isErr bool, panicked string) {
 	defer func() {
 		if e := recover(); e != nil {
 			panicked = fmt.Sprint(e)
@@ -82,6 +82,7 @@ func decodeReal(kind string, anys []*anypb.Any) (decoded interface{}, isErr bool
 		if err != nil {
 			return nil, true, ""
 		}
+		observeJSON(id, res)
 		m := map[string]xdsresource.Resource{}
 		for k, v := range res {
 			m[k] = v
@@ -92,18 +93,21 @@ func decodeReal(kind string, anys []*anypb.Any) (decoded interface{}, isErr bool
 		if err != nil {
 			return nil, true, ""
 		}
+		observeJSON(id, res)
 		return dMap(res), false, ""
 	case "cds":
 		res, err := xdsresource.UnmarshalCDS(anys)
 		if err != nil {
 			return nil, true, ""
 		}
+		observeJSON(id, res)
 		return dMap(res), false, ""
 	case "eds":
 		res, err := xdsresource.UnmarshalEDS(anys)
 		if err != nil {
 			return nil, true, ""
 		}
+		observeJSON(id, res)
 		return dMap(res), false, ""
 	case "nds":
 		res, err := xdsresource.UnmarshalNDS(anys)
@@ -154,6 +158,6 @@ func runDecode(raw json.RawMessage) (interface{}, error) {
 	o.Summary = Lof(sum)
 	o.ReValid, o.Rates = ctx.oracles()
 	o.Unmodelled = ctx.unmodelled
-	o.Decoded, o.Err, o.Panic = decodeReal(c.Kind, anys)
+	o.Decoded, o.Err, o.Panic = decodeReal(c.Kind, anys, c.ID)
 	return o, nil
 }
